@@ -300,6 +300,20 @@ def _is_copy_thunk(repo, name):
     return False
 
 
+# functions whose mechanical mutants are swept in the thorough tier (coverage evidence, see sa/mutate.py)
+MUTATION_SCOPE = ['dyads:eval_dyad_amend',
+                  'dyads:_e_dyad_amend_in_depth',
+                  'dyads:eval_dyad_reshape',
+                  'dyads:eval_dyad_join',
+                  'dyads:eval_dyad_drop',
+                  'dyads:eval_dyad_define',
+                  'monads:eval_monad_range',
+                  'types:merge_projections',
+                  'interpreter:KlongInterpreter.__call__',
+                  'interpreter:KlongInterpreter.__setitem__',
+                  'interpreter:KlongInterpreter.__delitem__',
+                  'parser:kg_read']
+
 SEEDS = [
     Seed("amend-asarray", "fault", "dyads", "    r = np_backend.array(a) # clone", "    r = np_backend.asarray(a)", rule="C04-R1"),
     Seed("reshape-no-copy", "fault", "dyads", "                a = np_backend.copy(a)\n", "", rule="C04-R1"),
